@@ -171,7 +171,7 @@ def run(ctx):
     # ---- random formulas -----------------------------------------------------------------
     n_domains = 14 if thorough else 6
     for d in range(n_domains):
-        w = gen.gen_world(rng)
+        w = gen.gen_world(rng, name_clash=0.25)
         acts = [(gen.gen_params(rng, w), None if d == 0 else ["and"])]  # '()' and '(and)' are always present
         acts[0] = (acts[0][0], [] if d % 2 == 0 else ["and"])
         for _ in range(6 if thorough else 4):
